@@ -642,7 +642,7 @@ Theorem no_partial_update (cs : list mcall) w0 sched :
 Proof.
   destruct (word_is_committed_calls _ (to_call_linearisable _ _ _ gen_L1 gen_L2 gen_L3 cs) w0 sched)
     as (lin & Hnd & Hw & Hf).
-  exists lin. split; [exact Hnd|]. split; [|exact Hf].
+  exists lin. unfold gen_call. split; [exact Hnd|]. split; [|exact Hf].
   rewrite Hw. exact (apply_calls_to_call _ _ _ gen_set_commit gen_unset_commit gen_setlast_commit cs lin w0).
 Qed.
 
